@@ -24,7 +24,7 @@ func init() {
 		AlsoOnly: map[string][]string{"C11": {" insert into ", " remove from ", " lookup in "}}, AlsoFloor: map[string]int{"C11": 10},
 		Text: "must-check-before-act, decided on every acyclic path to the act: (1) an entry is added to / removed from directory p only after p.checkPermission(mask including OpenWrite and OpenLookup, user) returned true on that path (pointer-equality decisions on the path make the check on one name count for the other; objects allocated by the call need none); (2) the content of an existing file is truncated by a path-level call only after checkPermission including write on that file (or with the decoded open mode, whose decoder guarantees OpenTruncate => OpenWrite, C01.flags); (3) setOwner only after the administrator test; (4) the boolean result of setMode / setModTime is tested and its false branch returns an error; (5) the walk descends into a directory only after checkPermission(OpenLookup) on it; (6) OpenFile hands out a handle on an existing node only after checkPermission on it",
 		Run:  c03Matrix})
-	register(&Rule{ID: "C03.admin", Floor: 3,
+	register(&Rule{ID: "C03.admin", Also: []string{"C16"}, AlsoOnly: map[string][]string{"C16": {"stranger-refused"}}, AlsoFloor: map[string]int{"C16": 1}, Floor: 3,
 		Text: "the administrator is never refused: in checkPermission, setMode and setModTime every path that returns false has seen IsAdmin() == false",
 		Run:  c03Admin})
 	register(&Rule{ID: "C03.create", Floor: 3,
@@ -131,7 +131,16 @@ func c03Matrix(rc *RuleCtx) {
 		return c != nil && calleeFunc(c) != nil && calleeFunc(c).Name() == "ToOpenMode"
 	}
 	for _, f := range rc.C.srcFuncs("memfs") {
-		if !isEntryPoint(f) || f.Signature.Recv() == nil {
+		if f.Signature.Recv() == nil {
+			continue
+		}
+		selfUnit := false
+		for _, p := range prims[f] {
+			if p.selfChecked {
+				selfUnit = true // an unexported primitive that makes the permission check itself: decided as a unit
+			}
+		}
+		if !isEntryPoint(f) && !selfUnit {
 			continue
 		}
 		rn := namedOf(f.Signature.Recv().Type())
@@ -161,7 +170,7 @@ func c03Matrix(rc *RuleCtx) {
 					continue
 				}
 				for _, p := range prims[callee] {
-					if p.mapField != "children" || p.objParam >= len(args) {
+					if p.mapField != "children" || p.objParam >= len(args) || p.selfChecked {
 						continue
 					}
 					keys, shared := nonFreshKeys(args[p.objParam])
@@ -560,6 +569,46 @@ func c03Admin(rc *RuleCtx) {
 			rc.bad(cons, f.Pos(), bad)
 		} else {
 			rc.good(cons, f.Pos(), "every refusing path has seen IsAdmin() == false")
+		}
+		// the converse for the two owner-only changes: whoever is neither the owner nor the administrator is refused
+		if nm(f) == "setMode" || nm(f) == "setModTime" {
+			cons2 := funcName(f) + " stranger-refused"
+			bad2 := ""
+			for _, r := range returnsOf(f) {
+				if k, ok := strip(r.Results[0]).(*ssa.Const); ok && k.Value != nil && k.Value.ExactString() == "false" {
+					continue
+				}
+				paths, complete := pathsTo(f, r, 2000)
+				if !complete {
+					bad2 = "too many paths"
+					break
+				}
+				for _, p := range paths {
+					entitled := false
+					for _, fa := range p {
+						if _, truth, k := callFact(fa, "IsAdmin"); k && truth {
+							entitled = true
+						}
+						v, truth := normCond(fa.Cond, fa.Truth)
+						if b, ok := v.(*ssa.BinOp); ok && (b.Op == token.EQL || b.Op == token.NEQ) && (b.Op == token.EQL) == truth {
+							for _, pr := range [][2]ssa.Value{{b.X, b.Y}, {b.Y, b.X}} {
+								c, _ := resultOfCall(pr[1])
+								if isFieldLoad(strip(pr[0]), "uid") && c != nil && calleeFunc(c) != nil && calleeFunc(c).Name() == "Uid" {
+									entitled = true
+								}
+							}
+						}
+					}
+					if !entitled {
+						bad2 = "a path reports the change as made (" + rc.C.pos(r.Pos()) + ") for a user that was found neither to own the node nor to be the administrator: Chmod / Chtimes by a stranger answers success instead of EPERM"
+					}
+				}
+			}
+			if bad2 != "" {
+				rc.bad(cons2, f.Pos(), bad2)
+			} else {
+				rc.good(cons2, f.Pos(), "success only for the owner or the administrator")
+			}
 		}
 	}
 	if n == 0 {
